@@ -12,6 +12,25 @@ from . import tlc
 from .core import Tally
 
 
+def safe_edge(ctx, t, modname, e):
+    """executes one emitted transition; an exception that escapes from the LIBRARY on a call the model allows (innermost frame in the
+    repository's package) is a verdict on the code - clause <focus>.unexpected_exception - and not a failure of the machinery;
+    an exception raised by the harness itself propagates (exit 2)"""
+    import traceback
+
+    try:
+        ctx.edge(e)
+    except Exception as exc:  # noqa
+        frames = traceback.extract_tb(exc.__traceback__)
+        inner = frames[-1].filename if frames else ""
+        if "/probables/" not in inner.replace("\\", "/") or "/vlib/" in inner:
+            raise
+        where = f"{inner.split('/probables/')[-1]}:{frames[-1].lineno}"
+        t.fail(t.focus, f"{t.focus}.unexpected_exception", modname.split(".")[-1],
+               {"raised": repr(exc), "where": where, "history": e.get("h"), "op": e.get("a"), "note": "a public call on a state the model allows raised inside the library"},
+               {"where": where.split(":")[0], "type": type(exc).__name__})
+
+
 def _worker(args):
     modname, focus, lines, params = args
     mod = importlib.import_module(modname)
@@ -20,7 +39,7 @@ def _worker(args):
     for ln in lines:
         e = json.loads(json.loads(ln))
         t.cur = {"module": modname, "params": params, "edge": e}
-        ctx.edge(e)
+        safe_edge(ctx, t, modname, e)
     t.cur = None
     ctx.close()
     return t
